@@ -204,13 +204,15 @@ PROPS['C17'] = {
 
 PROPS['C12'] = {
     'level': 'exploration', 'budget': {'quick': 75, 'thorough': 1200},
-    'parts': [{'sim': 'limits', 'mode': 'sweep', 'share': 1}, {'sim': 'limits', 'share': 2}, {'sim': 'connid', 'share': 0.6}],
+    'parts': [{'sim': 'limits', 'mode': 'sweep', 'share': 1}, {'sim': 'limits', 'share': 2}, {'sim': 'connid', 'share': 0.6},
+              {'sim': 'transfer', 'share': 0.7, 'env': {'VERIF_ORACLES': 'C01'}}],
     'rule': 'sweep: every built-in fingerprint x 12 server-side pushers x 4 relations of the user Config to the advertised values; seeded search: generated transport-parameter lists (values, absent parameters, rotated order) x arbitrary Config '
             '(windows, stream counts, idle timeout, datagram support) x pusher {stream window per stream type against a stalled or a slowly reading application, connection window over up to 40 streams, uni/bidi stream counts, connection IDs, '
             'DATAGRAM frame size at max / max-1 / 1 / 0, silence just below the effective idle timeout} x loss, duplication and reordering; the pusher reads the limits off the wire and goes exactly to each boundary; '
             'non-trivial = the boundary was reached or a network fault fired; distinct = distinct abstract wire traces; '
             'K:connid (shared with C16) for the active_connection_id_limit clause against a peer that, unlike the in-tree server, uses Retire Prior To: a real connIDManager with the limit set the way a spec-driven client sets it (2-8), '
-            'NEW_CONNECTION_ID histories exactly at, below and above the limit with retirements in the same frame',
+            'NEW_CONNECTION_ID histories exactly at, below and above the limit with retirements in the same frame; '
+            'W:transfer for the idle-timeout clause under faults: the idle timeout in force (read off the wire) must not fire early, e.g. while the server is silent between its handshake flight and HANDSHAKE_DONE',
     'real_vs_stub': 'real: UTransport client with spec, in-tree server, flow controllers, streams map, connection-ID manager, frame parser, idle timer, qlog recorder; stub: network, clock, application (pusher)',
     'assumptions': ['the in-tree server is the conformant peer: if it ever goes beyond an advertised limit (checked on the wire) the run is reported under C04, not as a client fault',
                     'a peer value of max_idle_timeout=0 is treated by the in-tree server as 5 s (probe idle-explicit-zero-server-uses-5s); the oracle uses the value the server put on the wire'],
